@@ -14,6 +14,7 @@ import (
 	"os"
 	"path/filepath"
 	"sort"
+	"sync"
 	"time"
 
 	pb "github.com/libp2p/go-libp2p-pubsub/pb"
@@ -38,7 +39,7 @@ func genC19(seed uint64, tier string) *Plan {
 	p.SK["sign"] = []string{"strict", "strict", "strictnosign", "laxsign", "laxnosign"}[r.intn(5)]
 	p.Knobs["seen_ttl_ms"] = 600000
 	p.Knobs["rsize"] = float64(r.rng(1, 4))
-	p.Knobs["idfn"] = float64(b2i(r.chance(0.3)))                  // message ID = hash of the payload
+	p.Knobs["idfn"] = float64(b2i(r.chance(0.3)))                     // message ID = hash of the payload
 	p.Knobs["idw_threshold"] = float64([]int{1, 32, 1024}[r.intn(3)]) // IDONTWANT (an urgent push) for small messages too
 	genDegrees(r, p, 4)
 	nt := p.ki("ntopics", 1)
@@ -117,9 +118,20 @@ func genC19(seed uint64, tier string) *Plan {
 	return p
 }
 
-type teeTracer struct{ ts []EventTracer }
+// teeTracer hands every event to all sinks under one lock, so that all sinks see one order. (The
+// library traces from several goroutines: a local Publish sends the router's Preprocess step to
+// the event loop - SEND_RPC for an IDONTWANT - and goes on to trace PUBLISH_MESSAGE itself without
+// waiting; the two events have no order. Without the lock two sinks could record them in opposite
+// orders and the comparison of the file traces with the in-memory trace raised a false alarm,
+// 2 in 1.2e6 thorough runs.)
+type teeTracer struct {
+	mu *sync.Mutex
+	ts []EventTracer
+}
 
 func (t teeTracer) Trace(evt *pb.TraceEvent) {
+	t.mu.Lock()
+	defer t.mu.Unlock()
 	for _, x := range t.ts {
 		x.Trace(evt)
 	}
@@ -153,7 +165,7 @@ func runC19(s *sim) {
 		if pt != nil {
 			ts = append(ts, pt)
 		}
-		return teeTracer{ts}
+		return teeTracer{&sync.Mutex{}, ts}
 	}
 	if p.kb("idfn") {
 		extra = append(extra, WithMessageIdFn(func(m *pb.Message) string { return "c:" + m.GetTopic() + "|" + contentID(m) }))
